@@ -1,8 +1,10 @@
 package runs
 
 import (
+	"maps"
 	"net/http"
 	"regexp"
+	"slices"
 	"sort"
 	"strconv"
 	"strings"
@@ -55,11 +57,10 @@ func (e *legacyExtra) ToXValue(env envs.Environment) types.XValue {
 }
 
 func (e *legacyExtra) addResults(results flows.Results) {
-	// sort by created time
+	// sort by created time (and by key for results created at the same time)
 	sortedResults := make([]*flows.Result, 0)
-	for _, result := range results {
-		sortedResults = append(sortedResults, result)
-
+	for _, key := range slices.Sorted(maps.Keys(results)) {
+		sortedResults = append(sortedResults, results[key])
 	}
 	sort.SliceStable(sortedResults, func(i, j int) bool { return sortedResults[i].CreatedOn.Before(sortedResults[j].CreatedOn) })
 
